@@ -50,11 +50,16 @@ def gen_case(rng, kind, n=None):
             ops.append(F.gen_rpms_op(rng, pool))
         elif kind == "modules":
             op = F.gen_modules_op(rng)
-            if ops and rng.random() < 0.4:
+            r = rng.random()
+            if ops and r < 0.4:
                 prev = rng.choice(ops)
                 for k in ("variant", "arch", "uid"):
                     op["args"][k] = prev["args"][k]
                 op["meta"]["uid_parts"] = prev["meta"]["uid_parts"]
+            elif ops and r < 0.6 and isinstance(ops[-1]["args"]["rpms"], list):
+                # the same module with the same RPM list filed in another variant/arch
+                op["args"]["uid"], op["meta"]["uid_parts"] = ops[-1]["args"]["uid"], ops[-1]["meta"]["uid_parts"]
+                op["args"]["rpms"] = list(ops[-1]["args"]["rpms"])
             ops.append(op)
         else:
             ops.append(F.gen_extra_op(rng))
@@ -125,10 +130,16 @@ def check_case(ctx, pm, H, tmpdir):
     real = F.new_real(pm, kind)
     model = F.MODELS[kind]()
     F.fill_compose(real.compose, c=H["compose"])
+    last_list = None
     for op in H["ops"]:
         verdict, reason = model.add(json.loads(json.dumps(op["args"])), op["meta"])
         try:
-            F.apply_real(real, json.loads(json.dumps(op)))
+            op_run = json.loads(json.dumps(op))
+            if kind == "modules" and isinstance(op_run["args"].get("rpms"), list):
+                if last_list is not None and last_list == op_run["args"]["rpms"]:
+                    op_run["args"]["rpms"] = last_list          # the caller re-uses its list object
+                last_list = op_run["args"]["rpms"]
+            F.apply_real(real, op_run)
         except Exception as e:
             # a valid add refused: C12's subject; the history is outside "built through the add operations"
             ctx.note_add("add_refused")
@@ -240,6 +251,25 @@ def check_case(ctx, pm, H, tmpdir):
         if probs6:
             ctx.violation("M6-history-continues-after-reload", "a re-read manifest is the same mapping: further adds and a second "
                           "write/read cycle give what the reference model gives", case, observed=probs6, expected="model mapping")
+    # M7: loading into an object that already holds other content gives exactly the loaded manifest
+    try:
+        used = F.new_real(pm, kind)
+        F.fill_compose(used.compose)
+        junk = {"rpms": F.gen_rpms_op, "modules": F.gen_modules_op, "extra": F.gen_extra_op}[kind]
+        import random as _random
+        jr = _random.Random(len(t1))
+        for _ in range(3):
+            F.apply_real(used, junk(jr, [F.gen_source_package(jr, 9)]) if kind == "rpms" else junk(jr))
+        used.loads(t1)
+        probs7 = F.first_diff(expected, F.real_state(used, kind))
+        if not probs7 and used.dumps() != t1:
+            probs7 = ["dumps() after the second load differs from the loaded file"]
+    except Exception as e:
+        probs7 = ["loading into a used object raised %s: %s" % (type(e).__name__, str(e)[:120])]
+    ctx.monitor("M7-load-replaces-content", fired=bool(probs7))
+    if probs7:
+        ctx.violation("M7-load-replaces-content", "a manifest is read back as exactly the mapping in the file - also into an object that held "
+                      "other entries before", case, observed=probs7, expected="the file's mapping")
     ctx.monitor("M5-file-roundtrip", fired=bool(problems))
     if problems:
         ctx.violation("M5-file-roundtrip", "dump(path)/load(path) equals the string round trip", case,
